@@ -49,6 +49,9 @@ ContDiff(seen, rec, m) ==
   ELSE IF VarDiff(rec, m) # {} THEN "vars:" \o (CHOOSE v \in VarDiff(rec, m) : TRUE)
   ELSE ""
 
+\* the calls of external functions the host received during the cont, in order, with their arguments
+CallsDiff(rec, log) == IF rec.calls # log THEN "external calls" ELSE ""
+
 \* the save document taken after the cont against the machine (records without a save carry sv = <<>>)
 SaveDiff(P, rec, m) ==
   IF rec.sv = <<>> THEN ""
@@ -81,7 +84,7 @@ Play ==
                /\ e' = Look(P)!BeginCont(e) /\ ph' = "loop" /\ UNCHANGED <<ci, n, tn, k, acc, steps, nbad>>
           [] ph = "loop" ->
                LET r == Look(P)!SingleStep(e) IN
-               /\ e' = [m |-> r.m, snap |-> r.snap]
+               /\ e' = [m |-> r.m, snap |-> r.snap, log |-> r.log]
                /\ ph' = IF Look(P)!LoopOver(r) THEN "end" ELSE "loop"
                /\ steps' = steps + 1 /\ UNCHANGED <<ci, n, tn, k, acc, nbad>>
           [] ph = "end" ->
@@ -89,8 +92,9 @@ Play ==
                    seen == Look(P)!Seen(e1) IN
                IF tn > Len(c.turns) \/ k > Len(c.turns[tn]) THEN Fail("Cont.extra", "", seen)
                ELSE LET d0 == ContDiff(seen, c.turns[tn][k], e1.m)
-                        d == IF d0 # "" THEN d0 ELSE SaveDiff(P, c.turns[tn][k], e1.m) IN
-                    IF d # "" THEN Fail("Cont." \o d, "", [seen |-> seen, vars |-> e1.m.vars, save |-> Look(P)!SaveView(e1.m)])
+                        d1 == IF d0 # "" THEN d0 ELSE CallsDiff(c.turns[tn][k], e1.log)
+                        d == IF d1 # "" THEN d1 ELSE SaveDiff(P, c.turns[tn][k], e1.m) IN
+                    IF d # "" THEN Fail("Cont." \o d, "", [seen |-> seen, vars |-> e1.m.vars, calls |-> e1.log, save |-> Look(P)!SaveView(e1.m)])
                     ELSE /\ e' = e1 /\ k' = k + 1
                          /\ acc' = Append(acc, [text |-> seen.text, tags |-> seen.tags])
                          /\ ph' = IF seen.can THEN "begin" ELSE "ref"
@@ -104,7 +108,7 @@ Play ==
                     IF d # "" THEN Fail("Design." \o d, "", [lookahead |-> [lines |-> acc, vars |-> e.m.vars, cnt |-> e.m.cnt],
                                                            plain |-> [lines |-> Out!Lines(n.out), vars |-> n.vars, cnt |-> n.cnt]])
                     ELSE IF tn <= Len(c.path) /\ n.st = "wait"
-                         THEN /\ e' = [m |-> Sem(P)!Choose(e.m, c.path[tn]), snap |-> <<>>]
+                         THEN /\ e' = [m |-> Sem(P)!Choose(e.m, c.path[tn]), snap |-> <<>>, log |-> <<>>]
                               /\ n' = Sem(P)!Choose(n, c.path[tn])
                               /\ tn' = tn + 1 /\ k' = 1 /\ acc' = <<>> /\ ph' = "begin"
                               /\ UNCHANGED <<ci, steps, nbad>>
